@@ -95,6 +95,9 @@ def run_tlc(module, cfg, wd, *, workers=NCPU, env=None, dump=None, simulate=None
     ms = _RE_STATES.findall(out)
     if ms:
         res['generated'], res['distinct'] = int(ms[-1][0]), int(ms[-1][1])
+    msim = re.search(r'The number of states generated: (\d+)', out)
+    if msim and not ms:
+        res['generated'] = res['distinct'] = int(msim.group(1))
     md = _RE_DEPTH.search(out)
     if md:
         res['depth'] = int(md.group(1))
